@@ -3,7 +3,7 @@ from .. import gen
 from . import common
 
 SPEC_THEOREM = 'Props/C15: first = head of all; array = [all]; mixed; exists iff non-empty; offsets delimit items; predicate paths'
-TRUSTED = ['Coq 8.16.1 kernel', 'translator', 'extraction + OCaml driver', 'Rust harness', 'model PathSem.v (select_t / build_values / build_array_items)',
+TRUSTED = ['Coq 8.16.1 kernel', 'translator', 'extraction + OCaml driver', 'Rust harness', 'specification PathSem.v (select_t / build_values / build_array_items) and the offset-faithful selector SelWalk.v tied by correspondence',
            'independent Python decoder for the returned bytes']
 ASSUMPTIONS = ['documents are canonical encodings of well-formed values']
 RULE = 'the C08 stream evaluated in all four modes through the selector API and the convenience functions; the relations are checked on the implementation outputs; non-trivial = at least one item selected'
